@@ -405,7 +405,12 @@ impl TargetScheme for Action {
                 buffer.push_str(&format!(")"));
             }
 
-            Action::PrintFid => buffer.push_str("(print-file-fid)"),
+            // Go through a printer like every other explicit action: (print-file-fid) writes to the
+            // output port directly, outside of the frames and of the port mutex
+            Action::PrintFid => {
+                let printer = ctx.get_printer(Some('\n'));
+                buffer.push_str(&format!("({printer} (file-fid))"));
+            }
             Action::Quit => buffer.push_str("(lipe-scan-break 0)"),
 
             Action::Prune | Action::List | Action::FileList(_) => {
